@@ -27,7 +27,8 @@ struct cfg {
 enum { OP_STORE, OP_STORE_PART, OP_RESET, OP_VALIDATE, OP_FETCH, OP_FETCH_PART, NOPS };
 static const char *opname[] = { "store", "store_part", "reset", "validate", "fetch", "fetch_part" };
 
-static unsigned char imgA[200], imgB[200], part[200];
+#define PC_MAX 70100
+static unsigned char imgA[PC_MAX], imgB[PC_MAX], part[PC_MAX];
 
 static PersistentAccess
 run_op(PersistentStorage *st, int op, size_t off, size_t n, unsigned char *dst)
@@ -90,7 +91,7 @@ judge_image(const struct cfg *c, const unsigned char *image, int op, const char 
     if ((v == PERSISTENT_ACCESS_SUCCESS) != consistent
         || (v != PERSISTENT_ACCESS_SUCCESS && v != PERSISTENT_ACCESS_INVALID_DATA)) {
         vh_fail("validates-mixed-image", key, "size=%zu place=%u aux=%zu %s: validate=%d, medium %s (image %s)", c->size,
-                c->place, c->auxsize, what, v, consistent ? "consistent" : "inconsistent", vh_hex(image, total));
+                c->place, c->auxsize, what, v, consistent ? "consistent" : "inconsistent", vh_hex(image, total > 64 ? 64 : total));
         return;
     }
     if (v == PERSISTENT_ACCESS_SUCCESS && whole_write && newimg) {
@@ -99,7 +100,7 @@ judge_image(const struct cfg *c, const unsigned char *image, int op, const char 
         int isA = memcmp(dst, imgA, c->size) == 0, isB = memcmp(dst, newimg, c->size) == 0;
         if (f != PERSISTENT_ACCESS_SUCCESS || !(isA || isB))
             vh_fail("valid-but-neither-old-nor-new", key, "size=%zu %s: fetch rc=%d data %s", c->size, what, f,
-                    vh_hex(dst, c->size));
+                    vh_hex(dst, c->size > 64 ? 64 : c->size));
         else if (isA && !isB)
             VH_COUNT("crash image validates and holds the previous image");
         else
@@ -114,7 +115,7 @@ crash_points(const struct cfg *c, int op, size_t off, size_t n)
     unsigned char *aux;
     prepare(c, &st, &aux);
     size_t cks = ps_cksize(c->ck), total = cks + c->size;
-    unsigned char m0[200], cur[200], cut[200], newimg[200];
+    static unsigned char m0[PC_MAX], cur[PC_MAX], cut[PC_MAX], newimg[PC_MAX];
     memcpy(m0, ps_medium, total);
     PersistentAccess rc = run_op(&st, op, off, n, NULL);
     if (rc != PERSISTENT_ACCESS_SUCCESS) {
@@ -130,7 +131,7 @@ crash_points(const struct cfg *c, int op, size_t off, size_t n)
             wl[nw++] = ps_log[i];
     memcpy(wd, ps_wdata, ps_nwdata);
     /* the complete new data image */
-    memset(newimg, 0x5A, sizeof newimg);
+    memset(newimg, 0x5A, c->size);
     if (op != OP_RESET)
         memcpy(newimg, imgA, c->size);
     if (op == OP_STORE)
@@ -154,6 +155,9 @@ crash_points(const struct cfg *c, int op, size_t off, size_t n)
         if (w->addr >= c->place + cks)
             data_written = 1;
         for (size_t t = 1; t < w->len; t++) {
+            /* long writes: tear positions around the 8- and 16-bit boundaries, the ends and a stride */
+            if (w->len > 300 && !(t <= 2 || t + 2 >= w->len || (t >= 254 && t <= 257) || (t >= 65534 && t <= 65537) || t % 9973 == 0))
+                continue;
             memcpy(cut, cur, total);
             memcpy(cut + (w->addr - c->place), wd + w->dataoff, t);
             snprintf(what, sizeof what, "%s(off=%zu,n=%zu) write %zu of %zu (addr=%u len=%zu) torn after %zu octets",
@@ -216,7 +220,7 @@ faults(const struct cfg *c, int op, size_t off, size_t n)
                 VH_COUNT("accesses after the injected fault");
             }
             /* whatever the fault left behind must not validate unless it is consistent */
-            unsigned char image[200];
+            static unsigned char image[PC_MAX];
             size_t total = ps_cksize(c->ck) + c->size;
             memcpy(image, ps_medium, total);
             judge_image(c, image, op, "medium after an injected fault", 0, NULL);
@@ -282,9 +286,49 @@ u_cfg(uint64_t idx, void *arg)
                             "validate, fetch, fetch_part failing or transferring one octet short");
 }
 
+/* data sizes beyond 255 and 65535 octets with auxiliary buffers large enough to keep the access count small */
+static void
+u_big(uint64_t idx, void *arg)
+{
+    (void)arg;
+    static const size_t sizes[] = { 300, 65536, 65539 };
+    struct cfg c;
+    c.size = sizes[idx % 3];
+    c.ck = (int)((idx / 3) % NCK);
+    c.place = (idx / 9) & 1 ? (uint32_t)(0u - (uint32_t)(ps_cksize(c.ck) + c.size)) : 7u;
+    ncase = 0;
+    img(imgA, c.size, 1);
+    img(imgB, c.size, 2);
+    const size_t auxes[] = { 4096, 65535, 65536, c.size + 1 };
+    for (size_t ai = 0; ai < 4; ai++) {
+        if (!vh_tier && ai != (idx + 1) % 4 && ai != 0)
+            continue;
+        c.with_aux = 1;
+        c.auxsize = auxes[ai];
+        VH_CASE4(c.size, c.place, c.ck, c.auxsize);
+        crash_points(&c, OP_STORE, 0, c.size);
+        crash_points(&c, OP_RESET, 0, 0);
+        faults(&c, OP_STORE, 0, c.size);
+        faults(&c, OP_RESET, 0, 0);
+        faults(&c, OP_VALIDATE, 0, 0);
+        faults(&c, OP_FETCH, 0, c.size);
+        size_t off = c.size / 3, n = c.size / 2;
+        img(part, n, 77);
+        crash_points(&c, OP_STORE_PART, off, n);
+        faults(&c, OP_STORE_PART, off, n);
+        faults(&c, OP_FETCH_PART, off, n);
+        vh_sig(0x11b00000ull ^ idx ^ ((uint64_t)ai << 40));
+    }
+    *vh_ncases += ncase;
+    vh_countf("large data size %zu", c.size);
+}
+
 void
 harness_run(void)
 {
+    for (uint64_t i = 0; i < 18; i++)
+        vh_unit("big", i, u_big, NULL);
+    vh_require("large data size 65536");
     static const size_t quick_sizes[] = { 1, 2, 3, 5, 8, 9, 16, 17, 33 };
     static const size_t thorough_sizes[] = { 1, 2, 3, 4, 5, 6, 7, 8, 9, 12, 15, 16, 17, 24, 31, 32, 33, 40, 64, 65, 100, 130 };
     const size_t *sizes = vh_tier ? thorough_sizes : quick_sizes;
